@@ -11,6 +11,7 @@ import Driver.Pre
 import Driver.Lacon
 import Driver.Rfs
 import Driver.UStackEng
+import Driver.LedgerEng
 
 def readAll (h : IO.FS.Stream) : IO String := do
   let mut acc := ""
@@ -35,6 +36,7 @@ def main (args : List String) : IO UInt32 := do
   | ["argcheck"] => Drv.argcheckMain (← readAll stdin)
   | ["fixup"] => Drv.fixupMain (← readAll stdin)
   | ["ustack", iw, dw] => Drv.ustackMain (← readAll stdin) (iw.toInt?.getD 4) (dw.toInt?.getD 8)
+  | ["ledger"] => Drv.ledgerMain (← readAll stdin)
   | ["schedtrace"] => Drv.schedTraceMain (← readAll stdin)
   | ["schedexplore"] => Drv.schedExploreMain (← readAll stdin)
   | _ => IO.eprintln "usage: sludrv <engine>   (input on stdin)"; return 2
